@@ -311,6 +311,24 @@ Definition plan_ops (u : uni) (ops : list opspec) : option (list (runes * opspec
   let m := gather_operations u ops in
   if forallb (represented m) ops && nodupb (map (fun kv => pascalize u (fst kv)) m) then Some m else None.
 
+(* the same with the packages of the operations (one per tag): checkDistinctOperationNames compares go names inside one
+   package; the cli renders the commands of all operations in one package, so [flat] compares them across packages.
+   [pk] gives the package of a route; routes it does not list are in the default package [] *)
+Definition pkg_tbl := list ((runes * runes) * runes).
+Fixpoint pkg_of (pk : pkg_tbl) (o : opspec) : runes :=
+  match pk with
+  | [] => []
+  | ((m, p), g) :: r => if runes_eqb m (o_method o) && runes_eqb p (o_path o) then g else pkg_of r o
+  end.
+Definition qualified (u : uni) (pk : pkg_tbl) (flat : bool) (kv : runes * opspec) : runes * runes :=
+  (if flat then [] else pkg_of pk (snd kv), pascalize u (fst kv)).
+Definition qual_eqb (a b : runes * runes) : bool := runes_eqb (fst a) (fst b) && runes_eqb (snd a) (snd b).
+Fixpoint nodupq (l : list (runes * runes)) : bool :=
+  match l with [] => true | x :: r => negb (existsb (qual_eqb x) r) && nodupq r end.
+Definition plan_ops_pkg (u : uni) (pk : pkg_tbl) (flat : bool) (ops : list opspec) : option (list (runes * opspec)) :=
+  let m := gather_operations u ops in
+  if forallb (represented m) ops && nodupq (map (qualified u pk flat) m) then Some m else None.
+
 (* checkDistinctModelNames: go type and (case-insensitive) source file per definition *)
 Definition def_type (u : uni) (d : runes) : runes := pascalize u d.
 Definition def_file (u : uni) (d : runes) : runes := map (u_tolower u) (mangle_file_name u (pascalize u d)).
